@@ -111,6 +111,12 @@ def run_case(case, arrays, classes, mon, viol, skip=()):
         knobs = ks[(case['idx'] // 2) % len(ks)]
         if too_costly(cls, arrays, dim, knobs):
             continue
+        if c01.condition(cls, c01.structure(
+                [dict(x=a['x'], y=a['y'], z=a['z'], h=a['h'])
+                 for a in arrays], dim), knobs) == 'point-cloud,small-h':
+            mon['skipped_point_cloud_small_h'] = mon.get(
+                'skipped_point_cloud_small_h', 0) + 1
+            continue      # listed C01 finding: the constructor refuses / dies
         if '%d|%s' % (case['idx'], cls) in skip:
             mon['configs_skipped_after_report'] = mon.get(
                 'configs_skipped_after_report', 0) + 1
@@ -344,6 +350,8 @@ def run(tier):
              'brute force; repeated 1-4 times; distinct = (case, class)',
         assumptions=['z-order family only on single-array cases (C01 known '
                      'finding for several arrays)',
+                     'no single-point clouds with h < 1e-3 for the cell-list '
+                     'classes (C01 known finding: unit-size box padding)',
                      'inputs without exactly coincident particles (C01 known '
                      'finding for octrees)'],
         extra_cov=cov, min_evaluations=20, min_distinct=10)
